@@ -13,4 +13,5 @@ let lookup (p : string) : Model.sexp -> Model.sexp =
   | "c06" -> Model.run_c06
   | "c13" -> Model.run_c13
   | "c20" -> Model.run_c20
+  | "c07" -> Model.run_c07
   | _ -> failwith ("unknown property " ^ p)
